@@ -454,10 +454,54 @@ class Session(object):
             raise Inconclusive("transmit queues not empty after %d rounds" % FLUSH_ROUNDS)
         # half close: everything sent so far will be followed by end-of-stream at the peer
         srv = self.server
+        if self.cfg.get("parting") and not self.binary:
+            # parting shot: each client queues one more packet, hands it to the kernel and half-closes at once; the
+            # server stack then reads that data and the end-of-stream in ONE serviceAll pass - the bytes must still be
+            # delivered as a received packet (a connection that is reaped must not take its unparsed bytes along)
+            # first let the server read everything sent so far, so that the small parting packets fit the kernel buffers
+            for _ in range(FLUSH_ROUNDS):
+                if all(self.got_len[("c", i)] == len(self.exp[("c", i)]) for i in range(len(self.clients))):
+                    break
+                self.round()
+                self.absorb()
+                if self.fails:
+                    return
+            for i, c in enumerate(self.clients):
+                self.queue("c", i, 0, 2, 200 + i)
+            for _ in range(200):
+                for c in self.clients:
+                    self.call(c, "serviceAllTx")
+                if not any(c.txPkts or c.txMsgs or c.txbs for c in self.clients):
+                    break
+            self.absorb()
+            if any(c.txPkts or c.txMsgs or c.txbs for c in self.clients):
+                # could not hand the parting packets to the kernel without the server reading: no parting shot here,
+                # an ordinary flush follows
+                for _ in range(FLUSH_ROUNDS):
+                    if not self.pending():
+                        break
+                    self.round()
+                    self.absorb()
+                    if self.fails:
+                        return
+            else:
+                for c in self.clients:
+                    c.handler.shutdownSend()
+                for ca in self.cas:
+                    ix = srv.handler.ixes.get(ca)
+                    if ix is not None and ix.cs is not None:
+                        select.select([ix.cs], [], [], 1.0)      # let the data and the FIN arrive (never a verdict)
+                time.sleep(0.002)
+                self.call(srv, "serviceAll")
+                self.absorb()
+                self.info["parting"] = True
+                if self.fails:
+                    return
         for c in self.clients:
             c.handler.shutdownSend()
         for ca in self.cas:
-            srv.handler.shutdownSendIx(ca)
+            if ca in srv.handler.ixes:      # a connection already reaped by the server stack is gone
+                srv.handler.shutdownSendIx(ca)
         for rnd in range(EOF_ROUNDS):
             self.call(srv, "handler.serviceReceivesAllIx")
             self.call(srv, "serviceReceives")
@@ -466,7 +510,8 @@ class Session(object):
             self.absorb()
             if self.fails:
                 return
-            if all(srv.handler.ixes[ca].cutoff for ca in self.cas) and all(c.handler.cutoff for c in self.clients):
+            if all(ca not in srv.handler.ixes or srv.handler.ixes[ca].cutoff for ca in self.cas) and \
+                    all(c.handler.cutoff for c in self.clients):
                 break
             time.sleep(0.0005)
         else:
@@ -482,7 +527,8 @@ class Session(object):
             if self.got_len[key] != len(self.exp[key]):
                 left = 0
                 if key[0] == "c":
-                    left = len(srv.handler.ixes[self.cas[key[1]]].rxbs)
+                    ixl = srv.handler.ixes.get(self.cas[key[1]])
+                    left = len(ixl.rxbs) if ixl is not None else 0
                 else:
                     left = len(self.clients[key[1]].rxbs)
                 self.fail("lost-bytes@" + ("client-rx" if key[0] == "s" else "server-rx"),
@@ -582,13 +628,15 @@ def _cases(step):
         "nclients": st.sampled_from([1, 1, 2]),
         "binary": st.sampled_from([False, False, False, True]),
         "bufs": st.integers(0, len(BUFS) - 1),
+        "parting": st.sampled_from([False, True]),
         "steps": st.one_of(st.lists(step, min_size=1, max_size=60), st.lists(step, min_size=12, max_size=60),
                            st.lists(step, min_size=12, max_size=60)),
     })
 
 
 def to_case(v):
-    return {"nclients": v["nclients"], "binary": v["binary"], "bufs": v["bufs"], "steps": [list(s) for s in v["steps"]]}
+    return {"nclients": v["nclients"], "binary": v["binary"], "bufs": v["bufs"], "parting": bool(v.get("parting")),
+            "steps": [list(s) for s in v["steps"]]}
 
 
 def plan(tier):
@@ -622,6 +670,8 @@ def work(shard, seed, tier):
             classes.append("message-path-used")
         if info.get("stray"):
             classes.append("stray-destination-queued")
+        if info.get("parting"):
+            classes.append("parting-shot-data-and-eof-in-one-pass")
         if both:
             classes.append("both-directions")
         if info["burst"]:
